@@ -28,3 +28,47 @@ def widenInt (signed : Bool) (bs : Bytes) : Option Bytes :=
   if signed then (readIntAny bs).map slot64 else (readUintAny bs).map (fun n => slot64 (n : Int))
 
 end ColumnVerif.Codec
+
+namespace ColumnVerif.Codec
+
+/-- the Go integer types `Buffer.PutAny` knows -/
+inductive GoInt | i8 | i16 | i32 | i64 | int | u8 | u16 | u32 | u64 | uint
+  deriving DecidableEq, Repr, Inhabited
+
+def GoInt.signed : GoInt → Bool
+  | .i8 | .i16 | .i32 | .i64 | .int => true
+  | _ => false
+
+/-- size of the Go type in bits (`int` / `uint` are 64-bit here) -/
+def GoInt.bits : GoInt → Nat
+  | .i8 | .u8 => 8
+  | .i16 | .u16 => 16
+  | .i32 | .u32 => 32
+  | _ => 64
+
+/-- width in bytes of the operation `PutAny` writes: the 8-bit types are stored as 16-bit operations -/
+def GoInt.opWidth : GoInt → Nat
+  | .i8 | .u8 | .i16 | .u16 => 2
+  | .i32 | .u32 => 4
+  | _ => 8
+
+def GoInt.code (t : GoInt) : Nat := if t.opWidth = 2 then 1 else if t.opWidth = 4 then 2 else 3
+
+/-- the values of the type -/
+def GoInt.holds (t : GoInt) (v : Int) : Prop :=
+  if t.signed then -((2 ^ (t.bits - 1) : Nat) : Int) ≤ v ∧ v < ((2 ^ (t.bits - 1) : Nat) : Int)
+  else 0 ≤ v ∧ v < ((2 ^ t.bits : Nat) : Int)
+
+instance (t : GoInt) (v : Int) : Decidable (t.holds v) := by unfold GoInt.holds; exact inferInstance
+
+/-- the operation value `PutAny` writes for the integer `v` of Go type `t`: the Go conversion to the 16-, 32- or
+    64-bit type of the same signedness, big-endian -/
+def putAnyInt (t : GoInt) (v : Int) : Val :=
+  .fixed t.code (natToBE t.opWidth (v % ((256 ^ t.opWidth : Nat) : Int)).toNat)
+
+def GoInt.parse : String → Option GoInt
+  | "i8" => some .i8 | "i16" => some .i16 | "i32" => some .i32 | "i64" => some .i64 | "int" => some .int
+  | "u8" => some .u8 | "u16" => some .u16 | "u32" => some .u32 | "u64" => some .u64 | "uint" => some .uint
+  | _ => none
+
+end ColumnVerif.Codec
